@@ -1,7 +1,7 @@
 ---------------------------- MODULE OscFaultModel ----------------------------
 (* C18 "malformed or hostile datagrams": valid encodings (Osc.Enc) damaged by one or two faults chosen
-   by TLC: truncation at every offset, every aligned 32-bit word overwritten with -4, -1, 0, 2^31-1,
-   len+4, 3 (element sizes, blob sizes, ints, string bytes), single bytes overwritten (type tags
+   by TLC: truncation at every offset, every aligned 32-bit word overwritten with -4, -1, -20, -32, 0,
+   2^31-1, len+4, 3 (element sizes, blob sizes, ints, string bytes), single bytes overwritten (type tags
    without comma, unbalanced brackets, unknown tags, missing terminators), trailing garbage.  Checked
    here: the decoder is total (classifies every byte string) and lengths that are not a multiple of
    four are never accepted.  With Emitting the datagrams are printed and fed to the real receiver. *)
@@ -18,7 +18,7 @@ Bases == {M(<<47, 97>>, <<I(0, 1), [t |-> "s", b |-> <<97, 98>>], [t |-> "b", b 
           M(<<47, 97>>, <<[t |-> "["], I(0, 2), [t |-> "]"]>>),
           Bn(<<M(<<47, 97>>, <<I(0, 1)>>), M(<<47, 97, 98>>, <<[t |-> "s", b |-> <<120>>]>>)>>),
           Bn(<<Bn(<<M(<<47, 97>>, <<>>)>>)>>)}
-Words(len) == {I(0 - 1, 65532), I(0 - 1, 65535), I(0, 0), I(32767, 65535), I(0, len + 4), I(0, 3)}
+Words(len) == {I(0 - 1, 65532), I(0 - 1, 65535), I(0 - 1, 65516), I(0 - 1, 65504), I(0, 0), I(32767, 65535), I(0, len + 4), I(0, 3)}
 SetWord(s, pos, w) == [i \in 1..Len(s) |-> IF i >= pos /\ i < pos + 4 THEN I32(w.hi, w.lo)[i - pos + 1] ELSE s[i]]
 Init == n = 0 /\ b \in {Enc(v, Off) : v \in Bases}
 Fault == n < NFaults /\ n' = n + 1
